@@ -2,6 +2,7 @@
 package c02
 
 import (
+	"errors"
 	"fmt"
 	"os"
 	"strings"
@@ -91,6 +92,10 @@ func firstOffending(cs chain.Case) int {
 func run(c *h.Ctx, cs chain.Case) {
 	b, err := chain.Build(cs)
 	if err != nil {
+		if errors.Is(err, chain.ErrUndecodable) {
+			c.P.Class("raw-command-refused-by-decoder")
+			return
+		}
 		c.P.Class("build-error")
 		return
 	}
@@ -160,6 +165,17 @@ func draw(t *rapid.T) chain.Case {
 			cs.Links[pos-1].Cmd = rewrite(t, cs.Links[pos-1].Cmd, kind)
 		}
 		cs.Dev = append(cs.Dev, fmt.Sprintf("%s@%d/%d", kind, pos, len(cs.Links)))
+	}
+	if rapid.IntRange(0, 7).Draw(t, "rawcmd") == 4 {
+		// a delegation whose cmd field, as signed by its issuer, is not a command at all (the constructors never
+		// produce one; a decoder should refuse it; if one does not, the delegation grants nothing)
+		pos := rapid.IntRange(0, len(cs.Links)-1).Draw(t, "rawpos")
+		if rapid.Bool().Draw(t, "rawroot") {
+			pos = len(cs.Links) - 1
+		}
+		rc := rapid.SampledFrom([]string{"", "foo", "/foo/", "/Foo", "/Store", "//", "/ ", "store", "/a/", "/A/b", "/é/É", " /", "/\x00"}).Draw(t, "rawcmd_text")
+		cs.Links[pos].RawCmd = &rc
+		cs.Dev = append(cs.Dev, fmt.Sprintf("raw-invalid-command@%d/%d", pos+1, len(cs.Links)))
 	}
 	// "allowed => commands only narrow" holds whatever else is wrong with the chain: now and then a principal
 	// rule is broken as well (a link without subject, a foreign subject, a rewired audience ...). Such a chain
